@@ -358,9 +358,17 @@ int INTERNAL qt_process_blocking_call(void)
             break;
         }
     }
-    /* and now, re-queue */
-    qt_threadqueue_enqueue(item->thread->rdata->shepherd_ptr->ready, item->thread);
-    FREE_SYSCALLJOB(item);
+    /* and now, re-queue; once the task is back on a ready queue it may resume at
+     * any moment, and every system-call wrapper reads item->ret and then frees
+     * the job itself, so only jobs without such a wrapper are released here */
+    {
+        const int proxy_owns_job = (item->op == USER_DEFINED);
+
+        qt_threadqueue_enqueue(item->thread->rdata->shepherd_ptr->ready, item->thread);
+        if (proxy_owns_job) {
+            FREE_SYSCALLJOB(item);
+        }
+    }
     return 0;
 } /*}}}*/
 
